@@ -234,7 +234,7 @@ func ruleGetOrCreateAtomic(c *Ctx) {
 			}
 			// value is a freshly created object
 			if !la.isFreshExpr(as.Rhs[0]) {
-				if id, isID := unparen(as.Rhs[0]).(*ast.Ident); !isID || !la.freshLocal(fn, id) {
+				if id, isID := unparen(as.Rhs[0]).(*ast.Ident); !isID || !la.freshLocalAny(fn, id) {
 					return true
 				}
 			}
